@@ -580,6 +580,16 @@ def _format_precision(ctx, col):
                     f"{len(calls)} calls of get_convergence_format (expected 1)", text="format call")
             continue
         arg = calls[0].args[0] if calls[0].args else None
+        # get_convergence_format rejects anything that is not a Python float (TypeError), while a validated epsilon may be an
+        # int and the threshold may be a 0-d array: the argument must be converted with float(...)
+        is_float = isinstance(arg, ast.Call) and isinstance(arg.func, ast.Name) and arg.func.id == "float" and len(arg.args) == 1
+        col.add("R20.5", construct, owner.module.relpath, calls[0].lineno, is_float,
+                "the threshold is converted with float(...) before it is formatted" if is_float else
+                f"`{norm_text(calls[0])[:80]}` passes the threshold unconverted: get_convergence_format raises TypeError('epsilon must be a float') "
+                "for an integer epsilon (accepted by the validator) or an array-valued threshold, so a valid configuration fails in the constructor",
+                text="threshold converted to float")
+        if isinstance(arg, ast.Call) and is_float:
+            pass
         tests = CONV_TESTS if cls.name in HAS_CONV_TEST else ("span",)
         for ct_ in tests:
             I = solver_interp(ctx, cls, ct_)
@@ -971,7 +981,7 @@ NARROW = ("float32", "float16", "bfloat16", "int32", "int16", "int8", "int64")
 
 
 def _runtime_dtypes(ctx, col):
-    mods = [m for m in ctx.repo.modules.values() if m.name.startswith("mdpax.solvers.") or m.name == "mdpax.core.solver"]
+    mods = [m for m in ctx.repo.modules.values() if m.name.startswith("mdpax.solvers.") or m.name in ("mdpax.core.solver", "mdpax.core.problem")]
     for m in sorted(mods, key=lambda x: x.name):
         bad = []
         for n in ast.walk(m.tree):
@@ -1166,7 +1176,7 @@ def run(ctx: Context, col) -> None:
     part.finish()
     col.floor("R20.9", 9)
     col.floor("R20.10", 40)
-    col.floor("R20.11", 6)
+    col.floor("R20.11", 7)
     col.floor("R20.12", 1)
     col.floor("R20.13", 1)
     col.floor("R20.7", 9)
@@ -1176,5 +1186,5 @@ def run(ctx: Context, col) -> None:
     col.floor("R20.3", 60)
     col.floor("R20.4", 9)
     if not any("R20.5 not evaluated" in n for n in col.notes):
-        col.floor("R20.5", 8)
+        col.floor("R20.5", 12)
     col.floor("R20.6", 2)
